@@ -9,6 +9,7 @@ valid slices.
 Alarm (R1), on accepted streams only: C09.OneOutputPerPicture, C09.OutputAtCompletion (the callback fires while the
 completing data unit is being parsed), C09.Dimensions, C09.SampleRange, C09.PictureNumber.
 """
+from .. import common
 from . import codec_common as cc
 
 
@@ -71,8 +72,106 @@ def run(ctx):
     rp_ok = sum(v for k, v in stats.items() if k.endswith(":accepted"))
     if rp_ok == 0 or stats.get("dangling_blocks", 0) == 0:
         raise RuntimeError("vacuous: no accepted re-packed stream / no dangling block (%s)" % stats)
+    ctx.coverage["supplementary_streams"] = supplement(ctx, out["cfgs"])
     ctx.assumptions.append("re-packed coefficient magnitudes up to 2^63, qindex up to 119 (HQ) / 99 (LD)")
 
 
+# ---------------------------------------------------------------------------------- supplement
+# Two kinds of accepted streams the encoder never produces by itself (added after independently seeded changes
+# showed that the encoder-shaped corpus cannot see them):
+#  * "mixed":  one sequence whose pictures use DIFFERENT transform depths (per-picture transform parameters are
+#              legal): pictures of a second encoding (other dwt_depth / dwt_depth_ho) spliced in at byte level;
+#  * "wide":   custom signal ranges whose excursion + 1 is 2^29 (29-bit samples), with extreme coefficients.
+def _encode(features, pictures):
+    from io import BytesIO
+    from vc2_conformance.encoder.sequence import make_sequence
+    from vc2_conformance.bitstream import Stream, autofill_and_serialise_stream
+
+    f = BytesIO()
+    autofill_and_serialise_stream(f, Stream(sequences=[make_sequence(features, pictures)]))
+    return f.getvalue()
+
+
+def execute_supp(job):
+    import random
+    from io import BytesIO
+    from .. import corpus
+    from vc2_conformance.bitstream import autofill_and_serialise_stream
+
+    kind, c, seed, tid = job["kind"], job["c"], job["seed"], job["tid"]
+    cfg = dict(c["cfg"], qm="zeros", pn="zero")
+    outcome = c["outcome"]
+    rec = dict(cc.EMPTY_STREAM)
+    rec.update({"tid": tid, "ev": "run", "kind": "repacked", "cfg": cfg, "npics": cfg["npics"], "enc": "ok", "ser": "ok", "verdict": "none", "pics": [], "klass": kind})
+    try:
+        if kind == "mixed":
+            alt = [x for x in ((0, 0), (1, 0), (2, 0), (0, 1), (1, 1), (0, 2)) if x != (cfg["d"], cfg["dho"])]
+            d2, dho2 = alt[seed % len(alt)]
+            cfg2 = dict(cfg, d=d2, dho=dho2)
+            n = 2 if cfg["pcm"] == 1 else 1 + seed % 2
+            parts = []
+            for k, cf in enumerate((cfg, cfg2, cfg)):
+                pics = cc.make_pictures(dict(cf, npics=n, pn="auto"), outcome, seed + k)
+                for i, pic in enumerate(pics):
+                    pic["pic_num"] = k * n + i
+                parts.append(_encode(cc.make_features(cf, outcome), pics))
+            # byte-level splice: all of A except its end_of_sequence, the picture/fragment units of B and of A again
+            def units(data):
+                offs = corpus.pi_offsets(data)
+                return [data[o:(offs[i + 1] if i + 1 < len(offs) else len(data))] for i, o in enumerate(offs)]
+
+            ua, ub, uc = units(parts[0]), units(parts[1]), units(parts[2])
+            data = corpus.fix_offsets(b"".join(ua[:-1] + ub[1:-1] + uc[1:]))
+            rec["npics"] = 3 * n
+        else:
+            feats = cc.make_features(cfg, outcome)
+            vp = feats["video_parameters"]
+            vp["luma_offset"], vp["luma_excursion"] = 0, (1 << 29) - 1
+            vp["color_diff_offset"], vp["color_diff_excursion"] = 1 << 28, (1 << 29) - 1
+            out2 = dict(outcome, ydepth=29, cdepth=29)
+            pics = cc.make_pictures(dict(cfg, pn="auto"), out2, seed)
+            s2 = cc.read_back(_encode(feats, pics))
+            cc.repack(s2, random.Random(seed), "extreme")
+            f2 = BytesIO()
+            autofill_and_serialise_stream(f2, s2)
+            data = f2.getvalue()
+        rec.update(cc.project_stream(cc.read_back(data)))
+    except Exception as e:  # noqa: harness could not build this input -> not a verdict
+        rec["ser"] = "crash"
+        return {"records": [rec], "detail": {"exc": "build:" + common.exc_signature(e)}}
+    v, sig, pics = cc.decode(data, None, None)
+    rec["verdict"], rec["pics"] = v, pics
+    return {"records": [rec], "detail": {"exc": sig, "bytes_hex": data.hex() if len(data) < 3000 else ""}}
+
+
+def supplement(ctx, cfgs):
+    lossless = [c for c in cfgs if c["cfg"]["mode"] == "hq_lossless"]
+    jobs = []
+    for i, c in enumerate(lossless[: ctx.pick(120, 1200)]):
+        jobs.append({"kind": "mixed", "c": c, "seed": ctx.seed * 7 + i, "tid": len(jobs) + 1})
+    for i, c in enumerate([c for c in lossless if c["cfg"]["d"] + c["cfg"]["dho"] >= 1][: ctx.pick(60, 400)]):
+        jobs.append({"kind": "wide", "c": c, "seed": ctx.seed * 11 + i, "tid": len(jobs) + 1})
+    results = common.pmap(execute_supp, jobs)
+    records = [r["records"][0] for r in results]
+    bad, applied, res = cc.judge(records)
+    ctx.add_tlc(res, "trace validation (CodecTrace) of %d supplementary runs (mixed transform parameters, 29-bit ranges)" % len(records))
+    stats = {}
+    for j, r in zip(jobs, records):
+        k = "%s:%s" % (j["kind"], r["verdict"] if r["ser"] == "ok" else "build_failed")
+        stats[k] = stats.get(k, 0) + 1
+    for b in bad:
+        if b["clause"].startswith("C09.") and b["alarm"]:
+            j = jobs[b["line"] - 1]
+            r = records[b["line"] - 1]
+            ctx.violation("C09|%s|%s|" % (b["clause"].split(".", 1)[1], j["kind"]), "%s on a %s stream of cfg %s (%d pictures output)" % (b["clause"], j["kind"], r["cfg"], len(r["pics"])), {"supp": {"kind": j["kind"], "c": j["c"], "seed": j["seed"], "tid": 1}})
+    if stats.get("mixed:accepted", 0) < 10 or stats.get("wide:accepted", 0) < 5:
+        raise RuntimeError("vacuous supplement: %s" % stats)
+    return stats
+
+
 def replay(case):
+    if "supp" in case:
+        r = execute_supp(case["supp"])
+        bad, _, _ = cc.judge(r["records"])
+        return {"violations": [b for b in bad if b["alarm"] and b["clause"].startswith("C09.")], "detail": r["detail"]}
     return cc.replay_case(case, "C09")
